@@ -32,7 +32,8 @@ LEVEL_TEXT = ('Theorems (Props/C14.v): for EVERY well-formed UAM-IV file and EVE
               'WIND (Model/Wind.v, Proofs/WindProofs.v; Memmap reader hand-modelled incl. the RecordFile walk of its __init__, with a three-valued result read / raise / never returns): C14_wind_every_prefix at full strength for the reader as repaired by db74c5b / d3c85b3 (EVERY cut: raises, or presents exactly the '
               'first len / step_bytes complete steps; trailing partial steps are ignored) and C14_wind_never_hangs (the model diverges only on a '
               'corrupt size word <= -8 in the second record). Cuts incl. two inside the first step per file evaluated in Coq (WD).')
-LEVEL_NOTE = 'Trusted: Coq kernel+vm_compute, py2coq, harness. Met formats other than lateral_boundary: every-prefix sweep judged by the Python oracle only.'
+LEVEL_NOTE = ('Trusted: Coq kernel+vm_compute, py2coq, harness. Every format has a prefix theorem over its reader model; uamiv, lateral_boundary and the '
+              'layered met formats also get the exhaustive Python byte sweep, cloud_rain / landuse / bpch a Coq-evaluated selection of cuts per file.')
 TECHNIQUE = 'Coq proof (prefix theorem for the reader model) + exhaustive byte-prefix sweep per generated file'
 
 
